@@ -43,12 +43,15 @@ def run(ctx):
     # 1. model checks of the specifications (two TLC runs at a time)
     jobs = [("MC_Rebin", "MC_Rebin" if q else "MC_Rebin_thorough", "Rebin theorems G1 G2 Commute Subset Conserve Nest TofK", False),
             ("MC_Zoom", "MC_Zoom" if q else "MC_Zoom_thorough", "Zoom theorems Sum Com Uniform Shift Relabel Separable", False),
-            ("MC_Rebin", "MC_Rebin_even_quick" if q else "MC_Rebin_even", "Rebin theorems on even spans (segments kept or all combined)", False),
+            ("MC_Rebin", "MC_Rebin_even", "Rebin theorems on even spans (segments kept or all combined)", False),
             ("MC_Rebin", "MC_Rebin_vac1", "vacuity guard: some pair is covered, rebinned across segments and views", True),
             ("MC_Rebin", "MC_Rebin_vac2", "vacuity guard: some parameter set combining segments and TOF bins trims nothing", True),
             ("MC_Zoom", "MC_Zoom_vac", "vacuity guard: some zoomed and shifted grid covers a non-trivial image", True)]
-    with cf.ThreadPoolExecutor(2) as ex:
-        futs = [ex.submit(_mc, ctx, m, c, W // 2, what, ref, 3000, "6g" if q else "10g") for (m, c, what, ref) in jobs]
+    # TLC parallelises these models poorly (few initial states): several runs at a time instead
+    if q:
+        jobs = [j for j in jobs if j[1] != "MC_Rebin_even"]     # even spans: model check in the thorough tier, traces in both
+    with cf.ThreadPoolExecutor(3 if q else 2) as ex:
+        futs = [ex.submit(_mc, ctx, m, c, 1 if q else 4, what, ref, 3000, "4g" if q else "10g") for (m, c, what, ref) in jobs]
         for f in futs:
             f.result()
     # 2. record
